@@ -382,24 +382,22 @@ class InverseMatcher(WrappingMatcher):
         if not child.is_active() and not missing(self._id):
             return
 
-        # Skip missing documents
-        while self._id < self.limit and missing(self._id):
-            self._id += 1
-
-        # Catch the child matcher up to where this matcher is
-        if child.is_active() and child.id() < self._id:
-            child.skip_to(self._id)
-
         # While self._id is missing or is in the child matcher, increase it
-        while child.is_active() and self._id < self.limit:
+        while self._id < self.limit:
             if missing(self._id):
                 self._id += 1
                 continue
 
-            if self._id == child.id():
-                self._id += 1
-                child.next()
-                continue
+            if child.is_active():
+                if child.id() < self._id:
+                    # Catch the child matcher up to where this matcher is
+                    child.skip_to(self._id)
+                    continue
+
+                if self._id == child.id():
+                    self._id += 1
+                    child.next()
+                    continue
 
             break
 
